@@ -548,6 +548,36 @@ fn sparql_error<'a, T>(input: &'a str, kind: nom::error::ErrorKind) -> IResult<&
     Err(nom::Err::Error(nom::error::Error::new(input, kind)))
 }
 
+/// Deepest nesting of groups, parenthesised expressions and quoted triples the
+/// recursive-descent parser follows. Deeper input is a syntax error instead of
+/// a stack overflow of the calling (possibly small-stack) thread.
+const SPARQL_MAX_NESTING: usize = 128;
+
+thread_local! {
+    static SPARQL_NESTING: std::cell::Cell<usize> = const { std::cell::Cell::new(0) };
+}
+
+struct SparqlNestingGuard;
+
+impl SparqlNestingGuard {
+    fn enter() -> Option<Self> {
+        SPARQL_NESTING.with(|depth| {
+            if depth.get() >= SPARQL_MAX_NESTING {
+                None
+            } else {
+                depth.set(depth.get() + 1);
+                Some(SparqlNestingGuard)
+            }
+        })
+    }
+}
+
+impl Drop for SparqlNestingGuard {
+    fn drop(&mut self) {
+        SPARQL_NESTING.with(|depth| depth.set(depth.get().saturating_sub(1)));
+    }
+}
+
 fn sparql_name_character(character: char) -> bool {
     character.is_alphanumeric() || matches!(character, '_' | '-' | ':')
 }
@@ -970,6 +1000,9 @@ fn sparql_quoted_literal(input: &str) -> IResult<&str, &str> {
 }
 
 fn sparql_quoted_triple_parts(input: &str) -> IResult<&str, LexicalTriplePattern<'_>> {
+    let Some(_nesting) = SparqlNestingGuard::enter() else {
+        return sparql_error(input, nom::error::ErrorKind::TooLarge);
+    };
     let input = sparql_skip_ws(input);
     let Some(input) = input.strip_prefix("<<") else {
         return sparql_error(input, nom::error::ErrorKind::Tag);
@@ -1080,6 +1113,9 @@ fn sparql_triples_statement(input: &str) -> IResult<&str, Vec<LexicalTriplePatte
 }
 
 fn sparql_filter_operand(input: &str) -> IResult<&str, ArithmeticExpression<'_>> {
+    let Some(_nesting) = SparqlNestingGuard::enter() else {
+        return sparql_error(input, nom::error::ErrorKind::TooLarge);
+    };
     let input = sparql_skip_ws(input);
     if let Some(after_open) = input.strip_prefix('(') {
         let (after_expression, expression) = sparql_filter_arithmetic(after_open)?;
@@ -1213,6 +1249,9 @@ fn sparql_filter_function(input: &str) -> IResult<&str, FilterExpression<'_>> {
 }
 
 fn sparql_filter_atom(input: &str) -> IResult<&str, FilterExpression<'_>> {
+    let Some(_nesting) = SparqlNestingGuard::enter() else {
+        return sparql_error(input, nom::error::ErrorKind::TooLarge);
+    };
     let input = sparql_skip_ws(input);
     if let Some(after_not) = input.strip_prefix('!') {
         if !after_not.starts_with('=') {
@@ -1430,6 +1469,9 @@ fn sparql_group_primary(input: &str) -> IResult<&str, GroupGraphPattern<'_>> {
 
 /// Parses a recursive group graph pattern containing BGP, GRAPH, and UNION.
 pub fn parse_group_graph_pattern(input: &str) -> IResult<&str, GroupGraphPattern<'_>> {
+    let Some(_nesting) = SparqlNestingGuard::enter() else {
+        return sparql_error(input, nom::error::ErrorKind::TooLarge);
+    };
     let (mut input, _) = sparql_char(input, '{')?;
     let mut joined = Vec::new();
     loop {
